@@ -235,6 +235,35 @@ def _run(ctx):
                             'Vakt.C06.rule_policy_never_string')
                 f.signature = 'cross-strrule:' + k
                 out.failures.append(f)
+    # 5. a plain string element that equals the value matches wherever it stands in the field - also behind elements of
+    #    other kinds of string (instances of a str subclass), which the checkers pass over
+    for _ in range(ctx.budget(60, 1500)):
+        v = pick(rng, ['get', 'a', 'x y', 'max', ''])
+        others = [proto.StrSub(pick(rng, ['zz', 'other', v + 'x', '<q>'])) for _ in range(rng.randint(1, 2))]
+        field = others + [v] if rng.random() < 0.7 else [others[0], v] + others[1:]
+        try:
+            pol = Policy('mix', actions=list(field), subjects=list(field), resources=list(field), effect='allow')
+        except Exception:
+            out.count('mixed-str-unconstructible')
+            continue
+        for k in ('KR', 'KX', 'KF'):
+            ch = polcase.make_checker(k)
+            out.evaluations += 1
+            out.count('mixed-str:' + k)
+            try:
+                ft = bool(ch.fits(pol, 'actions', v))
+            except Exception:
+                ft = 'raise'
+            st = MemoryStorage()
+            st.add(pol)
+            dec = Guard(st, ch).is_allowed(Inquiry(action=v, subject=v, resource=v))
+            if ft is not True or dec is not True:
+                f = Failure('oracle', {'checker': k, 'field': [('%s(%r)' % (type(e).__name__, str(e))) for e in field],
+                                       'value': v}, {'fits': ft, 'decision': dec}, None,
+                            'the field holds a plain string element equal to the value, yet it does not match',
+                            'Vakt.C06.exact_iff / fuzzy_iff')
+                f.signature = 'mixed-str:' + k
+                out.failures.append(f)
     out.exhaustive = True
     out.extra['exhaustive_slice'] = ('all %d elements of length <= 3 over {a,A,<,>} x %d values x {exact, fuzzy} = %d '
                                      'cases, enumerated completely' % (len(words), len(vals), n_enum))
